@@ -42,6 +42,8 @@ fn run(args: &[String]) -> i32 {
         }
         Some("--serve") => props::c16::serve(),
         Some("c13-survey") => props::c13::survey(),
+        Some("c14-survey") => props::c14::survey(),
+        Some("c14-probe") => props::c14::probe(args[2].parse().unwrap(), args[3].parse().unwrap(), &args[4]),
         Some("c13-probe") => props::c13::probe(args[2].parse().unwrap(), args[3].parse().unwrap(), &args[4]),
         Some("c15-scan") => {
             // complete scan of one unary C15 function: prints every input whose error exceeds the bound
